@@ -200,6 +200,27 @@ CLAIMED = {
                 "period/perigee by C13_period_is_model_period",
         "technique": "Coq proof by case analysis over source-regenerated decision trees; oracle over the printable field ranges",
     },
+    "C18": {
+        "text": "Coq theorems (no axioms) over an atomic-step model of the orbit object's shared state: every history and every interleaving (unbounded "
+                "thread counts and lengths) returns fresh-object results, and nothing but the two lazy cache cells is ever stored to. The premises are "
+                "boolean checks (vm_compute) on facts REGENERATED from orbital.py on every run by a fail-closed AST dataflow pass: which pre-existing "
+                "attributes each query may store to, whether a stored value can depend on an argument, whether an argument is modified in place",
+        "design_ref": "DESIGN.md 5/C18",
+        "note": "the facts are cross-checked against a dynamic setattr log and the model's cell-access traces; bit-identity on the implementation is validated "
+                "(not proved) by sampled histories and a settrace-driven scheduler with exhaustive single preemption at source lines. Trusted: GIL atomicity, "
+                "numpy/scipy purity, soundness of the AST pass",
+        "technique": "generated facts as computed premises + interaction-tree model with invariant proof in Coq; deterministic thread scheduler as oracle",
+    },
+    "C08": {
+        "text": "Coq theorems (no axioms) by complete case analysis over a hand-written (container, dtype) model of every numeric entry point: 14 input kinds x "
+                "10 time kinds return the documented kind and never raise; the tick->day and tick->minute conversions as coded give identical binary64 bits "
+                "for one instant in any datetime64 unit (executable rational model of IEEE rounding)",
+        "design_ref": "DESIGN.md 5/C08",
+        "note": "the model's numpy/dask oracle-fact table and every entry-point cell are compared EXHAUSTIVELY with the installed numpy/dask and the "
+                "implementation on each run (6322 cells); the binary64 time model is compared bit-exactly with numpy; array-vs-scalar agreement (1e-6) and "
+                "bit identity across time kinds are sampled with regression instants. Trusted: numpy promotion and division rules as tabulated",
+        "technique": "finite kind model + vm_compute case sweep; rational IEEE-rounding model with invariance proof; exhaustive table correspondence via coq_eval",
+    },
 }
 
 _PENDING = "model and theorems not built yet in this round; not claimed on sampling alone (see DESIGN.md 10)"
